@@ -49,8 +49,8 @@ def build():
   return Property(
     'C05', units,
     bounded=[Bounded('C05/native/routing_cross_check', 'replay/routing_native.py', ['--what', 'hash', '--n', '60'], ['--what', 'hash', '--n', '600', '--thorough'],
-                     'consistent-hashing, fast-hashing and (rule-less) aggregation-aware routers on the real code: destination sets of 1..8 triples from a pool with several instances per server, built in three orders and by add/remove/re-add histories, REPLICATION_FACTOR 1..4, DIVERSE_REPLICAS on/off, carbon_ch and fnv1a_ch, 60 (quick) / 600 (thorough) keys: cardinality, distinctness, configured, diverse, deterministic, no exception',
-                     'cross-check of the discharged contracts on CPython (the ring position function is uninterpreted in the proof); keys are sampled, not all 65536 ring positions')],
+                     'consistent-hashing, fast-hashing and (rule-less) aggregation-aware routers on the real code: destination sets of 1..8 triples from a pool with several instances per server, built in three orders and by add/remove/re-add histories, REPLICATION_FACTOR 1..4, DIVERSE_REPLICAS on/off, carbon_ch and fnv1a_ch, 60 (quick) / 600 (thorough) keys, and for the consistent-hashing router EVERY ring position (the position function pinned to the position of each ring entry, its successor, 0 and 65535 -- routing is constant in between): cardinality, distinctness, configured, diverse, deterministic, no exception',
+                     'cross-check of the discharged contracts on CPython (the ring position function is uninterpreted in the proof); FastHashRing keys are sampled')],
     trusted_base=['A-ENGINE', 'A-SMT', 'A-LIB(bisect_left, set/list models, finite-set cardinality lemmas)'],
     assumptions=[
       "A-LIB: bisect_left on a list sorted by position returns the first index whose position is >= the key's; finite-set lemmas (A subset B /\\ |A| >= |B| ==> A == B, equal sets have equal cardinality) are assumed theorems",
